@@ -1494,6 +1494,11 @@ where
     write_all_half(stream, &res).await?;
     res.clear();
     let pid = std::process::id();"""),
+    dict(id="c04-kept-pool-identity-without-the-users", prop="C04", file="src/pool.rs", expect="C04-R1",
+         what="the identity that keeps a pool across a reload is the section with its users cleared (pool_size no longer part of it)",
+         old="""                pool_config.hash_value().hash(&mut hasher);""", new="""                let mut shared_config = pool_config.clone();
+                shared_config.users.clear();
+                shared_config.hash_value().hash(&mut hasher);"""),
     # ------------------------------------------------------------------ C11
     dict(id="c11-inline-client", prop="C11", file="src/main.rs", expect="C11-R1",
          what="client handled inline in the accept loop instead of its own task",
